@@ -69,8 +69,71 @@ Definition status_sym (s : status) : val :=
   | SClientPlugin => vsym "clientplugin" | SHandler => vsym "handler" | SWrite => vsym "write"
   end.
 
+(* raw family:
+   (sraw sKIND xVERS mSECURE mACCEPT mHANDLER sHANDLER-OK xBODY xRES xZERO-ARG
+         (xBODY snone|(ssome xVER xCIPHER))         codec: the body decoded as an Encrypt
+         snone|(ssome xARG)                          codec: the body decoded into the handler's binder
+         ()|((xCIPHER optPLAIN snone|(ssome xARG)))  AESDecrypt with the server's key, and its decoding
+         xRES-CIPHER (xVERS xRES-CIPHER xWIRE))
+   -> call: (nHANDLER optHANDLER-ARG mREP-SECURE optREP-BODY sSTATUS)   push: (nHANDLER optHANDLER-ARG) *)
+Definition pair_of (v : val) : option (option (bytes * bytes)) :=
+  match v with
+  | VL [t; VB a; VB b] => if sym_eqb t "some" then Some (Some (a, b)) else None
+  | _ => if sym_eqb v "none" then Some None else None
+  end.
+
+Definition run_raw (kind : val) (vers : bytes) (xs xa xh : marker) (hok : bool)
+                   (body res za : bytes) (unw : option (bytes * bytes)) (plain : option bytes)
+                   (dec1 : option (bytes * option bytes * option bytes))
+                   (resct verw ctw wirew : bytes) : val :=
+  let unm := fun b : bytes =>
+               if bytes_eqb b body then plain
+               else match dec1 with
+                    | Some (_, Some pt, sub) => if bytes_eqb b pt then sub else None
+                    | _ => None
+                    end in
+  let decf := fun (_ : bool) (c : bytes) =>
+                match dec1 with
+                | Some (c', pt, _) => if bytes_eqb c c' then pt else None
+                | None => None
+                end in
+  let encf := fun (_ : bool) (p : bytes) => if bytes_eqb p res then resct else [] in
+  let wrapf := fun v c : bytes => if bytes_eqb v verw && bytes_eqb c ctw then Some wirew else None in
+  let unwrapf := fun w : bytes => if bytes_eqb w body then unw else None in
+  let h := mkHandler bytes (fun _ => res) hok xh in
+  if sym_eqb kind "call" then
+    let o := serve_call bool bytes za (fun v => Some v) unm encf decf (fun _ => vers) wrapf unwrapf
+                        false xs xa body h in
+    VL [VN (match s_handler_arg _ o with Some _ => 1 | None => 0 end); vopt (s_handler_arg _ o);
+        vmarker (s_rep_secure _ o); vopt (s_rep_wire _ o); status_sym (s_status _ o)]
+  else
+    let a := serve_push bool bytes za unm decf (fun _ => vers) unwrapf false xs xa body in
+    VL [VN (match a with Some _ => 1 | None => 0 end); vopt a].
+
 Definition run (inp : val) : option val :=
   match inp with
+  | VL [tag; kind; VB vers; ms; ma; mh; hok; VB body; VB res; VB za; VL [VB _; uw]; pl; VL dl; VB resct;
+        VL [VB verw; VB ctw; VB wirew]] =>
+      if sym_eqb tag "raw" then
+        match marker_of ms, marker_of ma, marker_of mh, pair_of uw, marker_of pl with
+        | Some xs, Some xa, Some xh, Some unw, Some plain =>
+            let dec1 := match dl with
+                        | [VL [VB c; p; sub]] =>
+                            match marker_of p, marker_of sub with
+                            | Some pt, Some sb => Some (Some (c, pt, sb))
+                            | _, _ => None
+                            end
+                        | [] => Some None
+                        | _ => None
+                        end in
+            match dec1 with
+            | Some d => Some (run_raw kind vers xs xa xh (sym_eqb hok "true") body res za unw plain d
+                                      resct verw ctw wirew)
+            | None => None
+            end
+        | _, _, _, _, _ => None
+        end
+      else None
   | VL [kind; VL [VB verc; VB vers]; ms; ma; mh; hok; VB arg; VB res; VB za; VB zr; VL et; VL dt; VL wt] =>
       match marker_of ms, marker_of ma, marker_of mh, enc_tab et, dec_tab dt, wrap_tab wt with
       | Some xs, Some xa, Some xh, Some etab, Some dtab, Some wtab =>
